@@ -9,17 +9,18 @@ cd /verif
 seeds=("$@"); [ ${#seeds[@]} -eq 0 ] && seeds=(seeded/*/)
 base=$(mktemp -d /tmp/seedpar.XXXX)
 one() {
-  d=${1%/}; n=$(basename $d); w=$base/$n
+  d=$(readlink -f ${1%/}); n=$(basename $d); w=$base/$n
   prop=$(python3 -c "import json;print(json.load(open('$d/meta.json'))['property'])")
   mkdir -p $w
   rsync -a --exclude .git /repo/ $w/repo/
   rsync -a --exclude .git --exclude .work --exclude replays /verif/ $w/verif/
   mkdir -p $w/verif/replays
-  ( cd $w/repo && git init -q . 2>/dev/null; git apply $(readlink -f /verif/$d/patch.diff) ) >/dev/null 2>&1 || { echo "$n $prop patch-does-not-apply"; rm -rf $w; return; }
+  ( cd $w/repo && git init -q . 2>/dev/null; git apply $d/patch.diff ) >/dev/null 2>&1 || { echo "$n $prop patch-does-not-apply"; rm -rf $w; return; }
   sed -i "s|=> /repo|=> $w/repo|" $w/verif/harness/go.mod
   sed -i "s|/repo|$w/repo|g" $w/verif/run.sh
   ( cd $w/verif && timeout -s KILL 1500 bash ./run.sh $prop ${TIER:-quick} > $w/log 2>&1 ); rc=$?
   echo "$n $prop exit=$rc violations=$(grep -c '^VIOLATION' $w/log) $(grep -h '^ERROR' $w/log | head -1 | cut -c1-120)"
+  cp $w/log /verif/.work/seedpar-$n.log 2>/dev/null
   rm -rf $w
 }
 export -f one; export base TIER
